@@ -710,6 +710,19 @@ pub fn check_prune(
     }
     // only while over size
     let live_before = before.values().filter(|e| **e > now).count();
+    // C05's side of the same coin: the only thing that may take a record with a
+    // second or more to live out of the cache is an eviction, and there is none
+    // to make while the live records fit.  Afterwards a lookup would no longer
+    // return "exactly the unexpired records".
+    if live_before <= desired {
+        let lost: Vec<String> =
+            live_removed.iter().filter(|k| before[**k] - now >= SEC).map(|k| format!("{k:?}")).collect();
+        if !lost.is_empty() {
+            vs.push(Violation::new("c05.live_record_lost_in_prune").detail(json!({
+                "step": step, "lost": lost, "live_before": live_before, "desired": desired, "now_ns": now
+            })));
+        }
+    }
     if !evicted_names.is_empty() {
         if live_before - tolerated <= desired {
             vs.push(Violation::new("c15.evicted_while_within_size").detail(json!({
